@@ -333,7 +333,10 @@ def run(ctx: Ctx) -> None:
             unsub = norm(n.targets[0])
             reg = n.value
     ctx.require(unsub is not None, "bluetooth_device_connect: registration not found")
-    guard = client.methods["_bluetooth_device_disconnect_guard_timeout"]
+    guard = client.methods.get("_bluetooth_device_disconnect_guard_timeout")
+    guard_merged = guard is None  # a maintainer may have merged the guard helper into the timeout branch of its only caller
+    if guard_merged:
+        guard = bc
 
     def ev3(n: Node):
         out = []
@@ -345,13 +348,17 @@ def run(ctx: Ctx) -> None:
         return out
 
     b3 = occurred_before(g, ev3)
+    # "the disconnect was asked for" also holds when that request itself failed (its own timeout is caught around it)
+    from ..cfg import must_forward
+
+    b3x = must_forward(g, lambda n, f, label: f | frozenset(e for e in ev3(n) if label != "exc" or e == "disconnect"), frozenset())
     h = [n for n in g.reachable() if n.kind == "handler" and "TimeoutError" in n.handler_type]
     ctx.ob("C16.R3", bc, "connect has a TimeoutError handler", len(h) == 1, "")
     in_handler = [n for n in g.reachable() if n.in_handler and any("TimeoutError" in t for t in n.in_handler) and not n.copy_of.startswith("finally")]
     disc = [n for n in in_handler if "disconnect" in ev3(n)]
     rais = [n for n in in_handler if isinstance(n.ast, ast.Raise)]
     ctx.ob("C16.R3", bc, "timeout: unsubscribe before the disconnect request", len(disc) == 1 and "unsub" in b3.get(disc[0], frozenset()), "the caller's state callback would see the disconnect of a connect that is about to be reported as timed out")
-    ctx.ob("C16.R3", bc, "timeout: disconnect (slot recovered) before TimeoutAPIError is raised", len(rais) == 1 and {"unsub", "disconnect"} <= b3.get(rais[0], frozenset()) and isinstance(rais[0].ast.exc, ast.Call) and norm(rais[0].ast.exc.func) == "TimeoutAPIError", "")
+    ctx.ob("C16.R3", bc, "timeout: disconnect (slot recovered) before TimeoutAPIError is raised", len(rais) == 1 and {"unsub", "disconnect"} <= b3x.get(rais[0], frozenset()) and isinstance(rais[0].ast.exc, ast.Call) and norm(rais[0].ast.exc.func) == "TimeoutAPIError", "")
     if disc:
         c = [c for c in node_calls(disc[0]) if guard in res.callees(bc, c).funcs or client.methods["bluetooth_device_disconnect"] in res.callees(bc, c).funcs]
         ctx.ob("C16.R3", bc, "timeout: the disconnect is for the same address", bool(c) and norm(c[0].args[0]) == "address", f"{[norm(a) for a in c[0].args] if c else None}")
@@ -360,8 +367,15 @@ def run(ctx: Ctx) -> None:
     # ... and is issued unconditionally: no path through the guard function skips the disconnect request
     gg_ = cfg_of(ctx, guard)
     dn_ = [n for n in gg_.reachable() if any(c in gd for c in node_calls(n))]
-    skip = walk(gg_, {}, lambda n: None, blocked=set(dn_))
-    ctx.ob("C16.R3", guard, "the disconnect request is sent on every path of the guard (whatever the timeout value)", bool(dn_) and gg_.exit not in skip, "a path returns without asking the device to disconnect: the connection slot stays occupied although a timeout is reported")
+    if guard_merged:
+        # inside the caller: from the TimeoutError handler to the raise of TimeoutAPIError the request is unavoidable
+        hstart = [n for n in gg_.reachable() if n.kind == "handler" and "TimeoutError" in n.handler_type]
+        skip = walk(gg_, {}, lambda n: None, start=hstart[0], blocked=set(dn_)) if hstart else {gg_.exit}
+        leaves = [n for n in skip if n is gg_.exit or (isinstance(n.ast, ast.Raise) and isinstance(n.ast.exc, ast.Call) and norm(n.ast.exc.func) == "TimeoutAPIError")]
+        ctx.ob("C16.R3", guard, "the disconnect request is sent on every path of the guard (whatever the timeout value)", bool(dn_) and not leaves, "a path reports the timeout without asking the device to disconnect: the connection slot stays occupied")
+    else:
+        skip = walk(gg_, {}, lambda n: None, blocked=set(dn_))
+        ctx.ob("C16.R3", guard, "the disconnect request is sent on every path of the guard (whatever the timeout value)", bool(dn_) and gg_.exit not in skip, "a path returns without asking the device to disconnect: the connection slot stays occupied although a timeout is reported")
     # registration is for the operation's own address
     f, args = partial_of(bc, reg.args[1]) if len(reg.args) >= 2 else (None, [])
     ctx.ob("C16.R1", bc, "connect: state callback bound to the operation's future, address and user callback", f is ctx.repo.func(cb, "on_bluetooth_device_connection_response") and args == ["connect_future", "address", "on_bluetooth_connection_state"], f"{args}")
